@@ -383,9 +383,27 @@ func globalVer(pk *packages.Package, e ast.Expr) (ver, string, bool) {
 			}
 			for _, sp := range gd.Specs {
 				vs := sp.(*ast.ValueSpec)
+				// var v, _ = version.New("x.y")
+				if len(vs.Names) == 2 && len(vs.Values) == 1 && pk.TypesInfo.Defs[vs.Names[0]] == obj && !globalAssigned(pk, obj) {
+					if call, ok := vs.Values[0].(*ast.CallExpr); ok && len(call.Args) == 1 {
+						fn, _ := typeutil.Callee(pk.TypesInfo, call).(*types.Func)
+						if fn != nil && fn.Name() == "New" && fn.Pkg() != nil && load.Rel(fn.Pkg()) == "pkg/version" {
+							if tv := pk.TypesInfo.Types[call.Args[0]]; tv.Value != nil && tv.Value.Kind() == constant.String {
+								var v ver
+								if n, _ := fmt.Sscanf(constant.StringVal(tv.Value), "%d.%d", &v.maj, &v.min); n == 2 {
+									return v, vs.Names[0].Name, true
+								}
+							}
+						}
+					}
+					return ver{}, "", false
+				}
 				for i, nm := range vs.Names {
 					if pk.TypesInfo.Defs[nm] != obj || i >= len(vs.Values) {
 						continue
+					}
+					if globalAssigned(pk, obj) {
+						return ver{}, "", false
 					}
 					ue, ok := vs.Values[i].(*ast.UnaryExpr)
 					if !ok || ue.Op != token.AND {
@@ -419,6 +437,52 @@ func globalVer(pk *packages.Package, e ast.Expr) (ver, string, bool) {
 		}
 	}
 	return ver{}, "", false
+}
+
+// globalAssigned: the package-level variable is assigned, or its address taken,
+// somewhere in its package (it is not a constant then).
+func globalAssigned(pk *packages.Package, obj types.Object) bool {
+	found := false
+	is := func(e ast.Expr) bool {
+		for {
+			switch x := unparen(e).(type) {
+			case *ast.StarExpr:
+				e = x.X
+				continue
+			case *ast.SelectorExpr:
+				if o, ok := pk.TypesInfo.Uses[x.Sel]; ok && o == obj {
+					return true
+				}
+				e = x.X
+				continue
+			case *ast.Ident:
+				return pk.TypesInfo.Uses[x] == obj
+			}
+			return false
+		}
+	}
+	for _, f := range pk.Syntax {
+		ast.Inspect(f, func(n ast.Node) bool {
+			switch x := n.(type) {
+			case *ast.AssignStmt:
+				for _, l := range x.Lhs {
+					if is(l) {
+						found = true
+					}
+				}
+			case *ast.IncDecStmt:
+				if is(x.X) {
+					found = true
+				}
+			case *ast.UnaryExpr:
+				if x.Op == token.AND && is(x.X) {
+					found = true
+				}
+			}
+			return true
+		})
+	}
+	return found
 }
 
 func isInRangeCall(pk *packages.Package, e ast.Expr) (*ast.CallExpr, bool) {
@@ -768,6 +832,11 @@ func VersionFlow(p *load.Program) *report.RuleResult {
 					if aid != nil {
 						cs = consts[q.TypesInfo.Uses[aid]]
 					}
+					if cs == "" {
+						if gv, _, ok := globalVer(q, call.Args[0]); ok {
+							cs = gv.String()
+						}
+					}
 					var cv ver
 					if n, _ := fmt.Sscanf(cs, "%d.%d", &cv.maj, &cv.min); n != 2 {
 						res.Count("uses", 1)
@@ -791,6 +860,8 @@ func VersionFlow(p *load.Program) *report.RuleResult {
 					res.Count("uses", 1)
 					if id, ok := e.(*ast.Ident); ok && consts[q.TypesInfo.Uses[id]] != "" {
 						res.OK(key+"/arg", pos, fname, "constant version passed as comparison operand")
+					} else if gv, nm, ok := globalVer(q, e); ok {
+						res.OK(key+"/arg", pos, fname, fmt.Sprintf("package-level constant version %s = %s passed as comparison operand", nm, gv))
 					} else {
 						res.Unknown(key+"/arg", pos, fname, "undecided:idiom: version passed to a call")
 					}
